@@ -862,7 +862,7 @@ IDENTITY_STEPS = ["clone", "into_owned", "display_new", "from_str", "try_from"]
 ANY_STEPS = ["any_text", "any_compiled", "any_nested"]
 
 
-def lifecycle_traces(picked, rnd, per_fam):
+def lifecycle_traces(picked, rnd, per_fam, caps=None):
     """runs the routes of conversions in the real code; one trace record per (expression, route)"""
     import itertools
     lines = []
@@ -895,7 +895,7 @@ def lifecycle_traces(picked, rnd, per_fam):
     count = collections.Counter()
     recs = []
     for i, rts in by_case.items():
-        if count[fam_of[i]] >= per_fam:
+        if count[fam_of[i]] >= (caps or {}).get(fam_of[i], per_fam):
             continue
         count[fam_of[i]] += 1
         for rt, evs in rts:
@@ -916,7 +916,13 @@ def check_C19(tier):
         pool = [c for c in cases0 if c["fam"] == fam]
         rnd.shuffle(pool)
         picked += pool[:per_fam * 4]
-    recs = lifecycle_traces(picked, rnd, per_fam)
+    # flag placement: every member of the flags family up to four (thorough: five) lexemes - literals with and without
+    # case under different flags next to each other, which re-owning a token tree must keep apart
+    flags = L.family_cases(tier, [("flags", 4 if tier == "quick" else 5)])
+    for c in flags:
+        c["id"] = len(cases0) + c["id"]
+    picked += flags
+    recs = lifecycle_traces(picked, rnd, per_fam, caps={"flags": len(flags)})
     d = C.cache_dir("obs", "%s-%s" % (C.repo_hash(), C.harness_hash()))
     tpath = os.path.join(d, "lifecycle-%s.ndjson" % tier)
     L.write_ndjson(tpath, recs)
@@ -1719,6 +1725,17 @@ def check_C14(tier):
             for spelling in ("abs", "trailing", "dot"):
                 extra.append({"nodes": nodes, "follow": tname == "links", "min": -1, "max": -1, "rooted": False, "walk_from": index[base],
                               "base": spelling, "layers": [], "tree": tname, "origin": "library", "desc": "path walk of %s in tree %s (%s)" % (base, tname, spelling)})
+    # a walk that is given a regular file: the file itself is the only entry, its root segment the path as given
+    for tname, fname in (("plain", "root/a/x.txt"), ("deep", "root/f"), ("deep", "root/a/b/g")):
+        nodes, index = W.tree(W.TREES[tname])
+        for g in (None, "**", ""):
+            for spelling in ("abs", "rel"):
+                h = {"nodes": nodes, "follow": False, "min": -1, "max": -1, "rooted": False, "walk_from": index[fname],
+                     "base": spelling, "layers": [], "tree": tname, "origin": "library",
+                     "desc": "%s from the regular file %s in tree %s (%s)" % ("path walk" if g is None else "glob %r" % g, fname, tname, spelling)}
+                if g is not None:
+                    h["glob"] = C.cps(g)
+                extra.append(h)
     # a base given relative to the current directory, with and without a leading `.` component (`root/a`, `./root/a`):
     # the root segment is the directory as given
     for tname in ("plain", "deep"):
